@@ -37,3 +37,24 @@ Proof.
   rewrite !E. reflexivity.
 Qed.
 End Any.
+
+(* C04: exact symmetry.  The Hessian stencils write entry (i, j) and copy it to (j, i), so columns
+   i*n + j and j*n + i of the matrices handed to _extrapolate are identical; then so are the results --
+   for ANY arithmetic, hence bit-for-bit in binary64. *)
+Section Symmetric.
+Context {A : Type} (Op : Ops A).
+Variables (tfact thr c_1em8 c_1p5 c_half : A).
+Notation AE := (array_extrapolate Op tfact thr c_1em8 c_1p5 c_half).
+Theorem array_extrapolate_nth der hs rr ncols c d : c < ncols ->
+  nth c (AE der hs rr ncols) d = extrapolate Op tfact thr c_1em8 c_1p5 c_half (col Op der c) (col Op hs c) rr.
+Proof.
+  intros H. unfold array_extrapolate. rewrite (nth_map_lt _ _ _ 0) by (rewrite seq_length; exact H).
+  rewrite seq_nth by exact H. reflexivity.
+Qed.
+Theorem hessian_symmetric der hs rr n i j d : i < n -> j < n ->
+  col Op der (i * n + j) = col Op der (j * n + i) -> col Op hs (i * n + j) = col Op hs (j * n + i) ->
+  nth (i * n + j) (AE der hs rr (n * n)) d = nth (j * n + i) (AE der hs rr (n * n)) d.
+Proof.
+  intros Hi Hj E1 E2. rewrite !array_extrapolate_nth by nia. rewrite E1, E2. reflexivity.
+Qed.
+End Symmetric.
